@@ -472,6 +472,55 @@ def run(rep, ctx):
             "INTEGER==bndsNType.type_&&!is_integer(con.rhs())" in txt
         vals = sorted(fold(call_args(c)[0]) for c in cs)
         ok = ok and vals == [0.0, 0.0, 1.0]
+        if not ok:
+            # written differently: the decision is evaluated on (body lower bound, upper bound, rhs, body type) samples
+            from ..cfg import MiniInt as _MI
+            ints = [x for x in f.walk() if x["k"] == "DeclRefExpr" and x.get("name") == "INTEGER" and cv(x) is not None]
+            okv = bool(ints)
+            INTV = int(cv(ints[0])) if ints else 0
+            for L_, U_, R_, T_ in ((0.0, 5.0, 7.0, 0), (0.0, 5.0, -1.0, 0), (3.0, 3.0, 3.0, 0), (3.0, 3.0, 3.0, 1), (0.0, 5.0, 2.5, 1), (0.0, 5.0, 2.5, 0), (0.0, 5.0, 2.0, 1),
+                                   (2.0, 5.0, 2.0, 0), (0.0, 2.0, 2.0, 1)):
+                rec_, box = [], {}
+
+                def atom(t_, n_, env_):
+                    if n_["k"] in ("CXXMemberCallExpr", "CallExpr"):
+                        cn_ = (n_.get("callee") or "").split("::")[-1]
+                        if cn_ == "narrow_result_bounds":
+                            rec_.append(tuple(box["mi"].expr(a_, env_, 0) for a_ in call_args(n_)))
+                            return 0
+                        if cn_ == "rhs":
+                            return R_
+                        if cn_ == "lb" and not call_args(n_):
+                            return L_
+                        if cn_ == "ub" and not call_args(n_):
+                            return U_
+                        if cn_ in ("type", "get_result_type") and not call_args(n_):
+                            return INTV if T_ else INTV + 1
+                        if cn_ == "is_integer" and len(call_args(n_)) == 1:
+                            return int(float(box["mi"].expr(call_args(n_)[0], env_, 0)).is_integer())
+                    if n_["k"] == "MemberExpr" and n_.get("name") == "type_":
+                        return INTV if T_ else INTV + 1
+                    return None
+                mi = _MI(F, atom)
+                box["mi"] = mi
+                try:
+                    ret_ = mi.call(f, [("obj", None, None), ("obj", None, None)])
+                except AnalysisBroken:
+                    okv = False
+                    break
+                if L_ > R_ or U_ < R_:
+                    want_ = ([(0.0, 0.0)], 1)
+                elif L_ == R_ and U_ == R_:
+                    want_ = ([(1.0, 1.0)], 1)
+                elif T_ and not float(R_).is_integer():
+                    want_ = ([(0.0, 0.0)], 1)
+                else:
+                    want_ = ([], 0)
+                if (rec_, int(bool(ret_))) != want_:
+                    okv = False
+                    rnd = [("sample body in [%g, %g], rhs %g, %s body" % (L_, U_, R_, "integer" if T_ else "continuous"), ["narrowed to %s, returned %s" % (rec_, ret_)])]
+                    break
+            ok = okv
         g1.check(ok, "FixEqualityResult", short_loc(f.loc), "body == rhs is false if rhs is outside the body's range or fractional for an integer body, "
                  "true if the body is fixed at rhs", "cases: %s" % rnd)
     re_ = [g for g in funcs if g.name == "ReuseEqualityBinaryVar"]
@@ -646,6 +695,36 @@ def run(rep, ctx):
         a = [n for n in f.walk() if n["k"] == "BinaryOperator" and n.get("op") == "=" and render(kids(n)[0]) == "result"]
         ok = len(v) == 1 and render(kids(v[0])[0]).endswith(init + "()") and len(a) == 1 and \
             norm(render(kids(a[0])[1])) == "%s(result,%s(v))" % (op, acc)
+        if not ok:
+            # another spelling of the fold (an algorithm with a lambda, ...): evaluated on modelled variable lists
+            from ..cfg import MiniInt as _MI
+            LBS, UBS = {0: -3.0, 1: 2.0, 2: -7.5, 3: 4.0}, {0: 5.0, 1: 2.5, 2: -1.0, 3: 9.0}
+            okv = True
+            for lst in ([0, 1, 2, 3], [1], [2, 0], []):
+                box = {}
+
+                def atom(t_, n_, env_):
+                    if n_["k"] in ("CXXMemberCallExpr", "CallExpr"):
+                        cn_ = (n_.get("callee") or "").split("::")[-1]
+                        if cn_ in ("Inf", "Infty"):
+                            return 1e300
+                        if cn_ in ("MinusInf", "MinusInfty"):
+                            return -1e300
+                        if cn_ in ("lb", "ub") and len(call_args(n_)) == 1:
+                            return (LBS if cn_ == "lb" else UBS)[int(box["mi"].expr(call_args(n_)[0], env_, 0))]
+                    return None
+                mi = _MI(F, atom, seq=lambda t_, n_, env_, lst=lst: list(lst))
+                box["mi"] = mi
+                try:
+                    got_ = mi.call(f, [("obj", None, None)])
+                except AnalysisBroken:
+                    okv = False
+                    break
+                tab = LBS if acc == "lb" else UBS
+                want_ = (min if op == "min" else max)([tab[i_] for i_ in lst] + [1e300 if init == "Inf" else -1e300])
+                clamp_ = lambda x_: float("inf") if x_ >= 1e300 else (float("-inf") if x_ <= -1e300 else x_)
+                okv = okv and isinstance(got_, (int, float)) and clamp_(got_) == clamp_(want_)
+            ok = okv
         b1.check(ok, "fold|%s" % nm, short_loc(f.loc), "%s folds %s over %s(v) starting from %s" % (nm, op, acc, init))
     # which helper feeds which bound of Min / Max
     for f in over:
